@@ -495,8 +495,10 @@ func (conn *Conn) send(ctx context.Context) {
 				return
 			}
 		case <-ctx.Done():
-			// control channel closed, bail out
+			// control channel closed, trigger Close() to clean
+			// things up properly and bail out
 			conn.wg.Done()
+			conn.Close()
 			return
 		}
 	}
